@@ -11,6 +11,7 @@
 #include <cstdio>
 #include <cstdlib>
 #include <cstring>
+#include <stdexcept>
 #include <string>
 #include <thread>
 #include <vector>
@@ -60,7 +61,14 @@ long read_vector(const V &s, const V &mine, unsigned r) {
     SizeT i = static_cast<SizeT>(r % s.size());
     acc += keyof(s[i]) + keyof(s.at(i)) + keyof(s.front()) + keyof(s.back());
   }
-  acc += (s == mine) + (s != mine) + (s < mine) + (s >= mine);
+  acc += (s == mine) + (s != mine) + (s < mine) + (s >= mine) + (s <= mine) + (s > mine);
+  // element access that fails is const access too: at() beyond the size, on the shared object and on the private one
+  if (r % 5 == 0) {
+    try { acc += keyof(s.at(static_cast<SizeT>(s.size()))); } catch (const std::out_of_range &e) { acc += static_cast<long>(strlen(e.what())); }
+    try { acc += keyof(mine.at(static_cast<SizeT>(mine.size()))); } catch (const std::out_of_range &e) { acc += static_cast<long>(strlen(e.what())); }
+  }
+  acc += static_cast<long>(s.max_size() != 0) + (s.cbegin() == s.cend()) + (s.crbegin() == s.crend());
+  (void)s.get_allocator();
   V copy(s);  // copy-construction from the shared object
   acc += static_cast<long>(copy.size());
   return acc;
@@ -80,7 +88,10 @@ long read_set(const S &s, const S &mine, unsigned r) {
   for (typename S::const_iterator it = s.begin(); it != s.end(); ++it) acc += keyof(*it);
   T k(static_cast<int>(r % (s.size() > 40 ? 1009 : 40)));
   acc += (s.find(k) != s.end()) + s.contains(k) + static_cast<long>(s.count(k));
-  acc += (s == mine) + (s != mine) + (s < mine) + (s >= mine);
+  acc += (s == mine) + (s != mine) + (s < mine) + (s >= mine) + (s <= mine) + (s > mine);
+  for (typename S::const_reverse_iterator it = s.rbegin(); it != s.rend(); ++it) acc ^= keyof(*it);
+  acc += static_cast<long>(s.max_size() != 0) + (s.cbegin() == s.cend()) + s.key_comp()(k, k) + s.value_comp()(k, k);
+  (void)s.get_allocator();
   S copy(s);
   acc += static_cast<long>(copy.size());
   return acc;
@@ -92,6 +103,11 @@ long read_flat_extra(const S &s, unsigned r) {
   long acc = (s.lower_bound(k) - s.begin()) + (s.upper_bound(k) - s.begin());
   std::pair<typename S::const_iterator, typename S::const_iterator> er = s.equal_range(k);
   acc += er.second - er.first;
+  if (r % 5 == 0) {
+    typedef typename S::size_type SizeT;
+    try { acc += keyof(s.at(static_cast<SizeT>(s.size()))); } catch (const std::out_of_range &e) { acc += static_cast<long>(strlen(e.what())); }
+  }
+  if (!s.empty()) acc += keyof(s.front()) + keyof(s.back()) + keyof(s[static_cast<typename S::size_type>(r % s.size())]) + static_cast<long>(s.capacity());
   return acc;
 }
 template <class S>
